@@ -64,6 +64,7 @@ type Exec struct {
 	pure          *pureCtx
 	purePC        Term
 	fidx          map[string]Term
+	typesPkg      *types.Package // for lemmas (no function under verification): the package whose names contracts refer to
 	usedContracts map[string]*FnSpec
 	pending       []pendingPath
 	kf            []knownFinding
@@ -269,6 +270,7 @@ func (ex *Exec) runFrom(st *State, b *ssa.BasicBlock, idx int, from *ssa.BasicBl
 				}
 				ex.loopEntry(st, li)
 			}
+			st.cameFrom = from
 			st.visits[b]++
 			if st.visits[b] > 3 {
 				unsup("block %d revisited on one path (irreducible or uncut loop)", b.Index)
@@ -531,7 +533,18 @@ func (ex *Exec) step(st *State, in ssa.Instruction) bool {
 	case *ssa.MakeSlice:
 		st.regs[x] = ex.makeSlice(st, x)
 	case *ssa.Phi:
-		unsup("phi node (expected NaiveForm without lifting) in %s", ex.fn)
+		// NaiveForm still emits phis for && / || used as values: take the edge of the predecessor this path came from
+		picked := false
+		for i, p := range x.Block().Preds {
+			if p == st.cameFrom {
+				st.regs[x] = st.val(x.Edges[i])
+				picked = true
+				break
+			}
+		}
+		if !picked {
+			unsup("phi node without a known predecessor in %s", ex.fn)
+		}
 	case *ssa.Convert:
 		st.regs[x] = ex.convert(st, x)
 	case *ssa.ChangeType:
@@ -753,10 +766,20 @@ func (ex *Exec) binop(st *State, in ssa.Instruction, op token.Token, xv, yv Valu
 		ex.safety(st, in, "divzero", tNot(tEq(y, intLit(0))))
 		q, r := ex.divmod(st, x, y, signed)
 		if op == token.QUO {
-			if signed {
-				q = wrapTerm(q, bits, signed, true) // MinInt / -1
+			if yl, isLit := litVal(y); signed && !(isLit && yl.Sign() > 0) {
+				q = wrapTerm(q, bits, signed, true) // MinInt / -1 is the only quotient that leaves the range
+			}
+			if len(q.S) > 40 {
+				c := ex.ctx.Fresh("quo", SInt)
+				st.assume(tEq(c, q))
+				q = c
 			}
 			return Sc{q}
+		}
+		if len(r.S) > 40 {
+			c := ex.ctx.Fresh("rem", SInt)
+			st.assume(tEq(c, r))
+			r = c
 		}
 		return Sc{r}
 	case token.AND, token.OR, token.XOR, token.AND_NOT, token.SHL, token.SHR:
@@ -840,6 +863,9 @@ func (ex *Exec) bitop(st *State, op token.Token, x, y Term, bits uint, signed bo
 		if yok && yl.Sign() >= 0 && yl.Cmp(big.NewInt(64)) < 0 {
 			return st.named("shl", wrapTerm(tMul(x, bigLit(pow2(uint(yl.Uint64())))), bits, signed, false))
 		}
+		if !yok && !signed {
+			return st.named("shl", ex.shiftTerm(st, true, x, y, bits, signed))
+		}
 		if xok && xl.Cmp(big.NewInt(1)) == 0 {
 			// 1 << y : pow2 table
 			return ex.pow2Term(st, y, bits, signed)
@@ -853,6 +879,9 @@ func (ex *Exec) bitop(st *State, op token.Token, x, y Term, bits uint, signed bo
 		}
 		if yok && yl.Sign() >= 0 && signed {
 			return app(SInt, "div", x, bigLit(pow2(uint(yl.Uint64())))) // floor division = arithmetic shift
+		}
+		if !yok && !signed {
+			return st.named("shr", ex.shiftTerm(st, false, x, y, bits, signed))
 		}
 	case token.AND:
 		if yok && !signed {
@@ -1178,6 +1207,9 @@ func (ex *Exec) doReturn(st *State, r *ssa.Return) {
 				env.vars[n] = tv
 			}
 		}
+	}
+	for _, w := range ex.spec.Witnesses {
+		env.vars[w.Name] = TV{ex.evalWitness(env, w), nil}
 	}
 	for i, e := range ex.spec.Ensures {
 		name := e.Label
